@@ -6,7 +6,6 @@ import os
 
 import vlib
 
-CONE = ["Base/Felt.v", "C16/Casm.v", "C16/Vm.v", "C16/Roundtrip.v", "C16/Corr.v"]
 TRUSTED = [
     "Coq 8.16.1 kernel + vm_compute (no native_compute)",
     "axioms: none (Print Assumptions: Closed under the global context for every C16 theorem)",
@@ -19,8 +18,8 @@ TRUSTED = [
 
 def run(ctx):
     ok_build, _ = vlib.cargo_build(ctx, "h16")
-    ok_make, _ = vlib.coq_make(ctx, [f.replace(".v", ".vo") for f in CONE])
-    cone = [os.path.join(vlib.COQ, f) for f in CONE]
+    ok_make, _ = vlib.coq_make(ctx, "C16")
+    cone = vlib.cone_files("C16")
     pr = vlib.check_properties_file(ctx, os.path.join(vlib.COQ, "Props/C16.v"), cone) if ok_make else None
 
     corr_bad, oracle_bad, summary = [], [], {}
